@@ -112,7 +112,7 @@ def run_limb(prop, tier, names, only=None, workers=8):
                 f.write("#!/bin/sh\n# concrete re-execution of the unit's LLVM IR (built from the current tree) on the witness input; exit 1 = claim violated\n"
                         "cd /verif && mkdir -p .work/replay-limb && exec python3-vt -m irsym.limb_targets replay '%s' %d .work/replay-limb '%s/assignment.json'\n" % (n, i, rdir))
             os.chmod(os.path.join(rdir, "run.sh"), 0o755)
-            if d.get("assignment"):
+            if True:
                 rr = subprocess.run(["sh", os.path.join(rdir, "run.sh")], stdout=subprocess.PIPE, stderr=subprocess.STDOUT)
                 rep = rr.returncode == 1
                 shutil.rmtree(os.path.join(VERIF, ".work", "replay-limb"), ignore_errors=True)
